@@ -253,7 +253,7 @@ func runC20(c *Ctx) {
 	sort.Strings(lall)
 	if c.Level("links") {
 		dsl := []string{"cur", "real", "abs", "csub", "c*", "*r", "a*", "*", "re*l", "sub", "s*"}
-		fsl := []string{"a.txt", "*.txt", "*", "c.txt", "lf.txt", "l*", "f*", "*.md"}
+		fsl := []string{"a.txt", "*.txt", "*", "c.txt", "lf.txt", "l*", "f*", "*.md", "cur", "abs", "lost.txt", "csub", "real", "sub"} // the last six: a literal last segment naming a link to a directory, a dangling link, a directory
 		var pats []string
 		for _, f := range fsl {
 			pats = append(pats, f)
